@@ -17,6 +17,10 @@ typedef struct vsched_stats {
 } vsched_stats;
 void vsched_begin(const unsigned char *schedule, size_t n);
 vsched_stats vsched_end(void);
+// enumeration mode: explicit choices at every point with >= 2 alternatives, at most `bound` pre-emptions
+// of a runnable thread; vsched_enum_trace returns the (choice, alternatives) record of the run
+void vsched_begin_enum(const unsigned char *prefix, size_t n, int bound);
+size_t vsched_enum_trace(unsigned char *c, unsigned char *k, size_t cap);
 #ifdef __cplusplus
 }
 extern void (*vsched_on_deadlock)(const vsched_stats *);
